@@ -118,7 +118,7 @@ pub fn dec<const B: usize, const L: usize>(name: &str, inp: &[u8]) -> String {
                 Ok(v) => okv(&v),
                 Err(_) => "err".into(),
             },
-            Err(_) => "err Utf8".into(),
+            Err(_) => "err".into(),
         },
         "be" => match U::<B, L>::try_from_be_slice(inp) {
             Some(v) => okv(&v),
@@ -465,7 +465,7 @@ pub fn enc<const B: usize, const L: usize>(op: &str, p: &[&str]) -> String {
             let backi = U::<B, L>::try_from(&bi).ok() == Some(v)
                 && bi.sign() != num_bigint::Sign::Minus
                 && bi.magnitude() == &bu;
-            format!("{} {} {}", limbs_hex(&d), b(back), b(backi))
+            format!("{} {} {}", limbs_list(&d), b(back), b(backi))
         }
         "ark4" => {
             let a: ark_ff_04::BigInt<L> = v.into();
